@@ -28,13 +28,14 @@ type retCase struct {
 	ErrMsg   core.B `json:"err_msg,omitempty"`                       //
 	Pos      int    `json:"pos"`                                     // number of silent handlers before it
 	Reflect  bool   `json:"reflective"`                              // add an injected parameter so that the built-in fast path cannot apply
-	Custom   string `json:"custom,omitempty"`                        // "" | app | request | request-late : a custom ReturnHandler is registered there (late = after the silent handlers ran)
+	Custom   string `json:"custom,omitempty"`                        // "" | app | request | request-late | self (the returning handler maps it itself, right before it returns) : a custom ReturnHandler is registered there (late = after the silent handlers ran)
 	In       string `json:"in,omitempty"`                            // parameters of the handler: "" none | req | rw,req | ctx   (none of these changes what a return value means)
 	FailW    bool   `json:"underlying_write_fails,omitempty"`        // the client is gone: every Write on the underlying writer fails. Nothing of this request may reach a later one
 	PreRet   bool   `json:"silent_handlers_return_values,omitempty"` // the preceding silent handlers return "" / nil error / nil []byte
 	Method   string `json:"method,omitempty"`
 	Cancel   bool   `json:"request_context_cancelled_by_the_returning_handler,omitempty"` // the returning handler cancels the request context before it returns: what it returns is still the response (the chain stops afterwards either way, C03)
 	PreWrite bool   `json:"handler_writes_before_returning,omitempty"`                    // the returning handler has already written "head|" (status 200) itself: what it returns is still rendered, after that
+	WrapW    bool   `json:"plain_writer_mapped_by_middleware,omitempty"`                  // a middleware maps a plain http.ResponseWriter (not a flamego one) that brackets what passes through it: returned values are written through the writer the injector holds
 }
 
 func init() {
@@ -67,6 +68,28 @@ type c14ValErr struct{ Code int }
 
 func (e c14ValErr) Error() string { return fmt.Sprintf("valerr-%d", e.Code) }
 
+// c14SafeErr: a pointer type whose Error method also works on a nil receiver - an error interface holding
+// (*c14SafeErr)(nil) is a non-nil error with a message
+type c14SafeErr struct{ msg string }
+
+func (e *c14SafeErr) Error() string {
+	if e == nil {
+		return "lookup failed"
+	}
+	return e.msg
+}
+
+// c14CodedErr carries the method names frameworks like to look for; the table knows errors, not their methods
+type c14CodedErr struct{ msg string }
+
+func (e c14CodedErr) Error() string   { return e.msg }
+func (e c14CodedErr) StatusCode() int { return 404 }
+func (e c14CodedErr) Status() int     { return 409 }
+func (e c14CodedErr) Code() int       { return 400 }
+func (e c14CodedErr) Timeout() bool   { return true }
+func (e c14CodedErr) Temporary() bool { return true }
+func (e c14CodedErr) Unwrap() error   { return nil }
+
 type c14Err struct{ msg string }
 
 func (e *c14Err) Error() string { return e.msg }
@@ -98,6 +121,12 @@ func (c *retCase) errValue() reflect.Value {
 	case "wrapped":
 		return reflect.ValueOf(fmt.Errorf("%w", errors.New(string(c.ErrMsg)))).Convert(tError)
 	}
+	switch c.Err {
+	case "nilptr-safe":
+		return reflect.ValueOf((*c14SafeErr)(nil)).Convert(tError)
+	case "coded":
+		return reflect.ValueOf(c14CodedErr{"coded:" + string(c.ErrMsg)}).Convert(tError)
+	}
 	if e := c.sentinel(); e != nil {
 		return reflect.ValueOf(&e).Elem()
 	}
@@ -120,6 +149,12 @@ func (c *retCase) sentinel() error {
 
 // errText is the text of the returned error (the body the table prescribes).
 func (c *retCase) errText() string {
+	switch c.Err {
+	case "nilptr-safe":
+		return "lookup failed"
+	case "coded":
+		return "coded:" + string(c.ErrMsg)
+	}
 	if e := c.sentinel(); e != nil {
 		return e.Error()
 	}
@@ -306,6 +341,28 @@ func (c *retCase) unjudged() bool {
 	return false
 }
 
+// c14Bracket is a plain http.ResponseWriter a middleware puts in front of the context's writer
+type c14Bracket struct {
+	inner  http.ResponseWriter
+	status int
+	body   []byte
+}
+
+func (b *c14Bracket) Header() http.Header { return b.inner.Header() }
+func (b *c14Bracket) WriteHeader(c int) {
+	if b.status == 0 {
+		b.status = c
+	}
+	b.inner.WriteHeader(c)
+}
+func (b *c14Bracket) Write(p []byte) (int, error) {
+	if b.status == 0 {
+		b.status = 200
+	}
+	b.body = append(b.body, p...)
+	return b.inner.Write(p)
+}
+
 type retSpy struct {
 	h      http.Header
 	status int
@@ -344,24 +401,30 @@ func genRetCase(rng *rand.Rand) *retCase {
 	if rng.Intn(2) == 0 {
 		c.Err = []string{"new", "custom", "wrapped"}[rng.Intn(3)]
 		c.ErrMsg = core.B([]string{"boom", "", "e: x", "\xff"}[rng.Intn(4)])
-		if rng.Intn(4) == 0 {
+		if rng.Intn(6) == 0 {
+			c.Err = []string{"nilptr-safe", "coded"}[rng.Intn(2)]
+		} else if rng.Intn(4) == 0 {
 			c.Err = fmt.Sprintf("%s:%d", []string{"sentinel", "wrapped-sentinel"}[rng.Intn(2)], rng.Intn(len(c14Sentinels)))
 			c.ErrMsg = ""
 		}
 	}
 	c.Cancel = rng.Intn(10) == 0
 	c.PreWrite = rng.Intn(12) == 0
+	c.WrapW = rng.Intn(10) == 0
 	c.Method = []string{"GET", "GET", "POST", "HEAD", "HEAD"}[rng.Intn(5)]
 	c.FailW = rng.Intn(25) == 0
 	c.In = []string{"", "", "req", "rw,req", "ctx"}[rng.Intn(5)]
 	if rng.Intn(8) == 0 {
-		c.Custom = []string{"app", "request", "request-late"}[rng.Intn(3)]
+		c.Custom = []string{"app", "request", "request-late", "self"}[rng.Intn(4)]
 	}
 	if c.outOfTable() && c.Custom == "" {
-		c.Custom = []string{"app", "request", "request-late"}[rng.Intn(3)]
+		c.Custom = []string{"app", "request", "request-late", "self"}[rng.Intn(4)]
 	}
 	if c.Custom != "" {
 		c.PreWrite = false
+	}
+	if c.WrapW {
+		c.PreWrite, c.PreRet = false, false
 	}
 	if c.Custom != "app" && c.Custom != "request" && rng.Intn(2) == 0 {
 		c.PreRet = true
@@ -393,10 +456,16 @@ func judgeRet(w *core.W, c *retCase) {
 	}
 	ran := 0
 	var preW flamego.ResponseWriter
+	var selfCtx flamego.Context
+	var custom flamego.ReturnHandler
+	var bracket *c14Bracket
 	reqCtx, cancelReq := gocontext.WithCancel(gocontext.Background())
 	defer cancelReq()
 	h := reflect.MakeFunc(reflect.FuncOf(in, outT, false), func([]reflect.Value) []reflect.Value {
 		ran++
+		if c.Custom == "self" && selfCtx != nil {
+			selfCtx.Map(custom)
+		}
 		if c.Cancel {
 			cancelReq()
 		}
@@ -412,7 +481,7 @@ func judgeRet(w *core.W, c *retCase) {
 	}
 	customCalls := 0
 	var customVals []reflect.Value
-	custom := flamego.ReturnHandler(func(_ flamego.Context, vals []reflect.Value) {
+	custom = flamego.ReturnHandler(func(_ flamego.Context, vals []reflect.Value) {
 		customCalls++
 		customVals = vals
 	})
@@ -423,6 +492,15 @@ func judgeRet(w *core.W, c *retCase) {
 	var hs []flamego.Handler
 	if c.Custom == "request" {
 		hs = append(hs, func(ctx flamego.Context) { ctx.Map(custom) })
+	}
+	if c.Custom == "self" {
+		hs = append(hs, func(ctx flamego.Context) { selfCtx = ctx })
+	}
+	if c.WrapW {
+		hs = append(hs, func(ctx flamego.Context) {
+			bracket = &c14Bracket{inner: ctx.ResponseWriter()}
+			ctx.MapTo(bracket, (*http.ResponseWriter)(nil))
+		})
 	}
 	for i := 0; i < c.Pos; i++ {
 		switch {
@@ -460,6 +538,17 @@ func judgeRet(w *core.W, c *retCase) {
 	if msg := retVerdict(c, pan, ran, pre, spy.status, string(spy.body), marker, customCalls, customVals); msg != "" {
 		w.Violate("return-table", c, fmt.Sprintf("[%s path] %s", path, msg))
 		return
+	}
+	if c.WrapW && bracket != nil && c.Custom == "" {
+		w.Count("plain-writer-mapped-by-middleware")
+		want := string(spy.body)
+		if c.FailW {
+			want = string(bracket.body) // nothing is delivered when the connection is gone; what was handed to the bracket stands
+		}
+		if bracket.status != spy.status || (meth != "HEAD" && string(bracket.body) != want) {
+			w.Violate("return-table", c, fmt.Sprintf("[%s path] the client received status %d body %q, but the http.ResponseWriter a middleware mapped for this request saw status %d body %q: returned values are written through the writer the injector holds", path, spy.status, clip(string(spy.body)), bracket.status, clip(string(bracket.body))))
+			return
+		}
 	}
 	cls := "non-empty"
 	switch {
@@ -617,7 +706,7 @@ func runC14(r *core.Run) {
 		}
 		r.GateCounter("class:"+s+"/non-empty", 50)
 	}
-	for _, k := range []string{"class:string/zero", "class:named/zero", "class:bytes/nil", "class:*string/nil", "class:*bytes/nil", "class:iface/nil", "class:error/error", "class:error/zero", "class:int,error/error", "class:string,error/error", "class:bytes,error/error", "class:int,string/zero", "class:int,bytes/nil", "path:fast", "path:reflective", "custom:app", "custom:request", "custom:request-late", "silent-handlers-returned-values", "method:HEAD", "method:GET", "request-cancelled-by-returning-handler", "standard-library-error-value-returned", "handler-wrote-before-returning", "out-of-table-shape-with-custom-return-handler", "status>=600"} {
+	for _, k := range []string{"class:string/zero", "class:named/zero", "class:bytes/nil", "class:*string/nil", "class:*bytes/nil", "class:iface/nil", "class:error/error", "class:error/zero", "class:int,error/error", "class:string,error/error", "class:bytes,error/error", "class:int,string/zero", "class:int,bytes/nil", "path:fast", "path:reflective", "custom:app", "custom:request", "custom:request-late", "silent-handlers-returned-values", "method:HEAD", "method:GET", "request-cancelled-by-returning-handler", "standard-library-error-value-returned", "handler-wrote-before-returning", "out-of-table-shape-with-custom-return-handler", "status>=600", "plain-writer-mapped-by-middleware", "custom:self"} {
 		r.GateCounter(k, 50)
 	}
 	r.Gate("distinct_nontrivial", r.NonTrivialCount(), 2000)
